@@ -43,7 +43,7 @@ Definition C17_commit_after_tail_statement : Prop :=
   forall l rs t txs (newtx : tx) t2,
     valid_log l rs -> next_frame t = NStop -> replay rs None [] [] = Some txs ->
     forallb (fun r => negb (is_marker r)) (snd newtx) = true ->
-    Forall (fun r => body_ok (encode_body r) r) (commit_records newtx) ->
+    Forall rec_ok (commit_records newtx) ->
     next_frame t2 = NStop ->
     exists l1 l2,
       open_log (l ++ t) = inl (l1, txs) /\
@@ -78,6 +78,23 @@ Definition C17_written_log_valid_statement : Prop :=
 Theorem C17_written_log_valid : C17_written_log_valid_statement.
 Proof. exact written_log_valid. Qed.
 Print Assumptions C17_written_log_valid.
+
+(* any number of rounds of (arbitrary tail, open, commit): every open succeeds, the log is a
+   valid log after every round and the open after the last round — again under any tail —
+   recovers exactly the transactions of the original log followed by all transactions committed
+   in the rounds, in order.  (Every prefix of the rounds is itself a list of rounds, so the
+   statement holds after every round.) *)
+Definition C17_rounds_statement : Prop :=
+  forall (rounds : list (bytes * tx)) l recs txs,
+    valid_log l recs -> replay recs None [] [] = Some txs -> Forall round_ok rounds ->
+    exists l' recs',
+      run_rounds l rounds = Some l' /\
+      valid_log l' recs' /\
+      replay recs' None [] [] = Some (txs ++ map snd rounds) /\
+      forall t, next_frame t = NStop -> open_log (l' ++ t) = inl (l', txs ++ map snd rounds).
+Theorem C17_rounds : C17_rounds_statement.
+Proof. exact rounds_tolerated. Qed.
+Print Assumptions C17_rounds.
 
 (* the hypotheses are met: a log of one committed transaction, a zero-filled tail, a new
    commit, a torn tail behind it *)
